@@ -56,6 +56,16 @@ class SelfRef:
         self.cls, self.attrs = cls, attrs
 
 
+class Stub:
+    """object with exactly the listed attributes (anything else: AttributeError, i.e. the default of a
+    three-argument getattr / False for hasattr)"""
+    def __init__(self, name, attrs):
+        self.name, self.attrs = name, attrs
+
+    def __repr__(self):
+        return "<%s>" % self.name
+
+
 class _Ret(Exception):
     def __init__(self, v):
         self.v = v
@@ -86,6 +96,7 @@ class MiniEval:
         self.steps = 0
         self.max_steps = max_steps
         self.mutated_args = []      # (function, line, text): in-place changes of a caller-supplied container
+        self.on_stmt = None         # hook(stmt, func): may raise to stop the evaluation at a statement
 
     # ------------------------------------------------------------------ calls
     def call(self, f, args, kwargs=None, depth=0):
@@ -118,6 +129,8 @@ class MiniEval:
             self.steps += 1
             if self.steps > self.max_steps:
                 raise AnalysisError("ordering abstraction: step budget exceeded in %s" % f.qualname)
+            if self.on_stmt is not None:
+                self.on_stmt(st, f)
             self.stmt(st, env, f, depth)
 
     def stmt(self, st, env, f, depth):
@@ -224,6 +237,8 @@ class MiniEval:
         raise AnalysisError("%s:%d unknown name %s" % (f.qualname, n.lineno, n.id))
 
     def getattr(self, o, a, f, n):
+        if o is None:
+            raise AnalysisError("%s:%d None has no attribute %s" % (f.qualname, getattr(n, "lineno", 0), a))
         if isinstance(o, SelfRef):
             if a in o.attrs:
                 return o.attrs[a]
@@ -241,6 +256,10 @@ class MiniEval:
             if g is not None:
                 return ("static", g) if g.is_static else ("bound", o, g)
             raise AnalysisError("%s:%d self.%s unknown to the ordering abstraction" % (f.qualname, getattr(n, "lineno", 0), a))
+        if isinstance(o, Stub):
+            if a in o.attrs:
+                return o.attrs[a]
+            raise AnalysisError("%s:%d %r has no attribute %s" % (f.qualname, getattr(n, "lineno", 0), o, a))
         for t, names in _METHODS.items():
             if isinstance(o, t) and a in names:
                 return ("pymethod", o, a)
@@ -275,7 +294,7 @@ class MiniEval:
                     try:
                         return self.getattr(args[0], args[1], f, n)
                     except AnalysisError:
-                        if isinstance(args[0], SelfRef):
+                        if isinstance(args[0], (SelfRef, Stub)) or args[0] is None:
                             return args[2]
                         raise
                 return self.getattr(args[0], args[1], f, n)
